@@ -12,15 +12,41 @@ Require Import UPV.Proofs.LayerA_base UPV.Proofs.LayerA_Quant_proofs UPV.Proofs.
                UPV.Proofs.LayerA_Variants_proofs.
 Local Open Scope nat_scope.
 
-Lemma Forall2_map_eq {A B} (R : A -> A -> Prop) (f g : A -> B) l l' :
-  Forall2 R l l' -> (forall x y, R x y -> f x = g y) -> map f l = map g l'.
-Proof. induction 1; intros H'; simpl; [reflexivity|]. f_equal; auto. Qed.
+Lemma Forall2_map_eq_in {A B} (R : A -> A -> Prop) (f g : A -> B) l l' :
+  Forall2 R l l' -> (forall x y, In x l -> In y l' -> R x y -> f x = g y) -> map f l = map g l'.
+Proof.
+  induction 1 as [|a b l l' Hab _ IH]; intros H'; simpl; [reflexivity|]. f_equal.
+  - apply H'; [left; reflexivity | left; reflexivity | exact Hab].
+  - apply IH. intros x y Hx Hy. apply H'; right; assumption.
+Qed.
 
-Lemma Forall2_In_l {A} (R : A -> A -> Prop) l l' y : Forall2 R l l' -> In y l' -> exists x, In x l /\ R x y.
+Lemma Forall2_In_left {A} (R : A -> A -> Prop) l l' x : Forall2 R l l' -> In x l -> exists y, In y l' /\ R x y.
 Proof.
   induction 1 as [|a b l l' Hab _ IH]; intros Hin; [destruct Hin|].
-  destruct Hin as [<-|Hin]; [exists a; split; [left; reflexivity | exact Hab]|].
-  destruct (IH Hin) as [x [Hx HR]]. exists x. split; [right; exact Hx | exact HR].
+  destruct Hin as [<-|Hin]; [exists b; split; [left; reflexivity | exact Hab]|].
+  destruct (IH Hin) as [y [Hy HR]]. exists y. split; [right; exact Hy | exact HR].
+Qed.
+
+Lemma all_hold_map_eq2 sc I I' (f : expr -> expr) l :
+  (forall x, In x l -> eval sc (f x) I' = eval sc x I) -> all_hold sc I' (map f l) = all_hold sc I l.
+Proof.
+  induction l as [|x l IH]; intros H; [reflexivity|]. cbn [map].
+  change (all_hold sc I' (f x :: map f l)) with (holds sc I' (f x) && all_hold sc I' (map f l)).
+  change (all_hold sc I (x :: l)) with (holds sc I x && all_hold sc I l).
+  unfold holds at 1 2. rewrite (H x (or_introl eq_refl)), IH; [reflexivity|]. intros y Hy. apply H. right; exact Hy.
+Qed.
+
+Lemma strip_all_skip {A} (f : A -> Sem.eres) l : (forall x, In x l -> f x = ESkip) -> strip (map f l) = [].
+Proof.
+  induction l as [|x l IH]; intros H; [reflexivity|]. cbn [map strip filter].
+  rewrite (H x (or_introl eq_refl)). cbn [is_skip negb]. apply IH. intros y Hy. apply H. right; exact Hy.
+Qed.
+
+Lemma evals_l_map_eq2 sc J J' (f : expr -> expr) l :
+  (forall x, In x l -> eval sc (f x) J' = eval sc x J) -> evals_l sc J' (map f l) = evals_l sc J l.
+Proof.
+  induction l as [|x l IH]; intros H; [reflexivity|]. cbn [map evals_l].
+  rewrite (H x (or_introl eq_refl)), IH; [reflexivity|]. intros y Hy. apply H. right; exact Hy.
 Qed.
 
 Lemma gt_actions_In t id' g : In (id', g) (gt_actions t) -> exists ia, In (id', ia, g) t.
@@ -63,7 +89,7 @@ Section GroundProofs.
     unfold g_pre. fold pre. set (I0 := mk_interp P s []). set (I := mk_interp P s sg).
     assert (E : holds false I0 (smp (mkAnd (map (psubst sg) pre))) = all_hold false I pre).
     { unfold holds. rewrite (Hsmp _ s [] I0 HG (or_introl eq_refl)). fold (holds false I0 (mkAnd (map (psubst sg) pre))).
-      rewrite holds_mkAnd. apply all_hold_map_eq. intros x _. apply psubst_eval. apply prel_mk_interp. }
+      rewrite holds_mkAnd. apply all_hold_map_eq2. intros x _. apply psubst_eval. apply prel_mk_interp. }
     destruct (smp (mkAnd (map (psubst sg) pre))) as [b| | | | | | | |l| | | | | | | | | | | | | | | | | |] eqn:Ec;
       try (rewrite <- E; change (all_hold false I0 [?x]) with (holds false I0 x && true); apply andb_true_r; fail);
       try (rewrite <- E; match goal with |- all_hold false I0 [?x] = _ => change (all_hold false I0 [x]) with (holds false I0 x && true); apply andb_true_r end).
@@ -89,21 +115,160 @@ Section GroundProofs.
     - (* dropped: the original instances are all skipped *)
       cbn [eres flat_map]. symmetry.
       assert (S : forall J, In J (instances I (e_vars e)) -> eval_effect false J e = ESkip).
-      { intros J HJ. destruct (Forall2_In_r _ _ _ J F HJ) as [J' [HJ' HR]].
+      { intros J HJ. destruct (Forall2_In_left _ _ _ J F HJ) as [J' [HJ' HR]].
         pose proof (EV (e_cond e) J J' HJ' HR) as Ec. fold c in Ec. apply is_false_eq in Fc. rewrite Fc in Ec.
         cbn [eval] in Ec. unfold eval_effect. destruct (evals_l false J (e_args e)) eqn:Ea; [|exfalso; exact (Ht J HJ Ea)].
         rewrite <- Ec. reflexivity. }
-      induction (instances I (e_vars e)) as [|J l IH]; [reflexivity|]. cbn [map strip filter].
-      rewrite (S J (or_introl eq_refl)). cbn [is_skip negb]. apply IH. intros J0 H0. apply S. right; exact H0.
+      rewrite (strip_all_skip _ _ S). reflexivity.
     - set (ge := {| e_fl := e_fl e; e_args := map (fun x => smp (psubst sg x)) (e_args e);
                     e_val := smp (psubst sg (e_val e)); e_cond := c; e_kind := e_kind e;
                     e_vars := keep_vars (effect_free_vars (map (fun x => smp (psubst sg x)) (e_args e))
                                                          (smp (psubst sg (e_val e))) c) [] (e_vars e);
                     e_isbool := e_isbool e |}) in *.
       specialize (Hv ge eq_refl). f_equal. unfold eres. cbn [flat_map]. rewrite app_nil_r. rewrite Hv.
-      symmetry. apply (Forall2_map_eq (prel sg)); [exact F|].
-      intros J J' HR.
-      assert (HJ' : In J' (instances I0 (e_vars e)) \/ True) by (right; exact Logic.I). clear HJ'.
-      admit_placeholder.
+      symmetry. apply (Forall2_map_eq_in (prel sg)); [exact F|].
+      intros J J' _ HJ' HR. unfold eval_effect. cbn [ge e_args e_cond e_val e_fl e_kind].
+      assert (Ea : evals_l false J' (map (fun x => smp (psubst sg x)) (e_args e)) = evals_l false J (e_args e)).
+      { apply evals_l_map_eq2. intros x _. apply (EV x J J' HJ' HR). }
+      rewrite Ea. unfold c. rewrite (EV (e_cond e) J J' HJ' HR), (EV (e_val e) J J' HJ' HR). reflexivity.
+  Qed.
+
+  Lemma g_effects_fired s a args : G s -> vars_kept smp a args -> g_targets_total P a args ->
+    fired false (mk_interp P s []) (g_effects smp (zip_params (a_params a) args) (a_effs a)) =
+    fired false (mk_interp P s (zip_params (a_params a) args)) (a_effs a).
+  Proof.
+    intros HG Hv Ht. set (sg := zip_params (a_params a) args).
+    rewrite !fired_eres, collect_res_strip, (collect_res_strip (eres (mk_interp P s sg) (a_effs a))). f_equal.
+    unfold g_effects. rewrite eres_flat_map. unfold eres at 2. apply strip_flat_map.
+    intros e He. apply g_effect_piece; [exact HG | |].
+    - intros ge Hge. apply (Hv e ge He Hge).
+    - intros J HJ. apply (Ht s e J He HJ).
+  Qed.
+
+  (* the ground action, applied to no argument, takes exactly the step of the original action on the arguments *)
+  Lemma ground_step s a args g : G s -> vars_kept smp a args -> g_targets_total P a args ->
+    g_action smp a args = Some g ->
+    spec_step false P' s g [] = spec_step false P s a args.
+  Proof.
+    intros HG Hv Ht Hg. unfold g_action in Hg.
+    destruct (add_effs_ok [] [] (g_effects smp (zip_params (a_params a) args) (a_effs a))); [|discriminate].
+    pose proof (g_pre_spec s (zip_params (a_params a) args) (a_pre a) HG) as Hp.
+    destruct (g_pre smp (zip_params (a_params a) args) (a_pre a)) as [pre|]; [|discriminate].
+    inversion Hg; subst g. clear Hg.
+    apply spec_step_cong2; try reflexivity.
+    - exact Hp.
+    - cbn [a_effs a_params zip_params]. apply g_effects_fired; assumption.
+    - intros acts _. apply (invariants_ok_same P P'); reflexivity.
+  Qed.
+
+  (* no ground action because the simplified precondition is FALSE: the instance is not applicable *)
+  Lemma ground_pre_none s a args : G s -> g_pre smp (zip_params (a_params a) args) (a_pre a) = None ->
+    spec_step false P s a args = None.
+  Proof.
+    intros HG Hn. pose proof (g_pre_spec s (zip_params (a_params a) args) (a_pre a) HG) as Hp. rewrite Hn in Hp.
+    rewrite spec_step_eq, Hp. reflexivity.
+  Qed.
+
+  Hypothesis Hu : unique_ids P.
+  Hypothesis Hu' : unique_ids P'.      (* the ground names are pairwise different (fix 206e087; C08) *)
+  Hypothesis Gstep : forall s aid a args t, G s -> lookup_action P aid = Some a -> spec_step false P s a args = Some t -> G t.
+  Hypothesis Hinst : instances_ok smp tuples P.
+
+  Lemma ground_table_In id' i args g : In (id', (i, args), g) tbl ->
+    exists a, In (i, a) (p_actions P) /\ In args (tuples i) /\ g_action smp a args = Some g.
+  Proof.
+    unfold tbl, ground_table. intros H. apply in_flat_map in H. destruct H as [[j a] [Hin H]]. cbn [fst snd] in H.
+    apply in_flat_map in H. destruct H as [[k t] [Hk H]]. cbn [fst snd] in H.
+    destruct (g_action smp a t) as [g0|] eqn:Eg; [|destruct H]. destruct H as [H|[]]. inversion H; subst.
+    exists a. split; [exact Hin|]. split; [eapply number_from_In; exact Hk | exact Eg].
+  Qed.
+
+  Lemma ground_lookup id' g : lookup_action P' id' = Some g ->
+    exists i args a, gt_back tbl id' = (i, args) /\ lookup_action P i = Some a /\ In args (tuples i) /\
+                     g_action smp a args = Some g.
+  Proof.
+    unfold lookup_action. change (p_actions P') with (gt_actions tbl). intros H. apply lookupN_In in H.
+    apply gt_actions_In in H. destruct H as [[i args] Hin].
+    destruct (ground_table_In id' i args g Hin) as [a [Ha [Ht Hg]]].
+    exists i, args, a. repeat split; try assumption.
+    - apply (gt_back_unique tbl id' (i, args) g); [exact Hu' | exact Hin].
+    - apply lookupN_unique; assumption.
+  Qed.
+
+  Lemma ground_run_sound pi' : forall s t, G s ->
+    run P' (spec_step false P') s pi' = Some t -> run P (spec_step false P) s (gt_map_back tbl pi') = Some t.
+  Proof.
+    induction pi' as [|[id' args'] pi' IH]; intros s t HG; cbn [run gt_map_back map fst]; [auto|].
+    destruct (lookup_action P' id') as [g|] eqn:EL; [|discriminate].
+    destruct (ground_lookup id' g EL) as (i & args & a & Hb & ELo & Htu & Hg).
+    rewrite Hb. cbn [run]. rewrite ELo.
+    assert (Ha : In (i, a) (p_actions P)) by (apply lookupN_In; exact ELo).
+    destruct (Hinst i a args Ha Htu) as [Hv Htt].
+    assert (E : spec_step false P' s g args' = spec_step false P s a args).
+    { rewrite <- (ground_step s a args g HG Hv Htt Hg). rewrite !spec_step_eq.
+      assert (Hp : a_params g = []) by (unfold g_action in Hg; destruct (add_effs_ok _ _ _); [|discriminate];
+                                        destruct (g_pre _ _ _); [|discriminate]; inversion Hg; reflexivity).
+      rewrite Hp. reflexivity. }
+    rewrite E. destruct (spec_step false P s a args) as [s1|] eqn:ES; [|discriminate].
+    apply IH. eapply Gstep; eassumption.
+  Qed.
+
+  (* soundness: a valid plan of the ground problem, mapped back by lift_action_instance, is a valid plan of the
+     original problem through the SAME states (the runs are equal for every plan, hence for every prefix) *)
+  Theorem ground_sound s0 pi' : G s0 ->
+    valid_plan false P' s0 pi' = true -> valid_plan false P s0 (gt_map_back tbl pi') = true.
+  Proof.
+    intros HG. unfold valid_plan.
+    destruct (run P' (spec_step false P') s0 pi') as [t|] eqn:ER; [|discriminate].
+    rewrite (ground_run_sound pi' s0 t HG ER). intros H. exact H.
+  Qed.
+
+  (* ---- completeness.  An instance left out because its ground effects conflict SYNTACTICALLY must be inapplicable:
+     true when syntactically different assigned values differ at run time (C37_conflict_drop_sound's hypotheses);
+     false in the recorded findings C01-grounding-syntactic-conflict / C07-grounder-syntactic-conflict-action-dropped *)
+  Hypothesis Hconf : forall s i a args, G s -> In (i, a) (p_actions P) -> In args (tuples i) ->
+    add_effs_ok [] [] (g_effects smp (zip_params (a_params a) args) (a_effs a)) = false ->
+    spec_step false P s a args = None.
+
+  Lemma ground_run_complete pi : forall s t, G s -> plan_in_tuples tuples pi ->
+    run P (spec_step false P) s pi = Some t ->
+    exists pi', run P' (spec_step false P') s pi' = Some t /\ gt_map_back tbl pi' = pi.
+  Proof.
+    induction pi as [|[i args] pi IH]; intros s t HG Hin; cbn [run].
+    - intros E. exists []. split; [exact E | reflexivity].
+    - destruct (lookup_action P i) as [a|] eqn:EL; [|discriminate].
+      destruct (spec_step false P s a args) as [s1|] eqn:ES; [|discriminate]. intros ER.
+      assert (Ha : In (i, a) (p_actions P)) by (apply lookupN_In; exact EL).
+      assert (Htu : In args (tuples i)) by (apply Hin; left; reflexivity).
+      destruct (Hinst i a args Ha Htu) as [Hv Htt].
+      destruct (g_action smp a args) as [g|] eqn:Eg.
+      + destruct (In_number_from _ _ Htu 0) as [k Hk].
+        assert (Ht : In (nm i k, (i, args), g) tbl).
+        { unfold tbl, ground_table. apply in_flat_map. exists (i, a). split; [exact Ha|]. cbn [fst snd].
+          apply in_flat_map. exists (k, args). split; [exact Hk|]. cbn [fst snd]. rewrite Eg. left; reflexivity. }
+        destruct (IH s1 t (Gstep s i a args s1 HG EL ES)) as [pi' [R1 R2]]; [intros j b Hj; apply Hin; right; exact Hj | exact ER|].
+        exists ((nm i k, []) :: pi'). cbn [run gt_map_back map fst]. split.
+        * assert (ELg : lookup_action P' (nm i k) = Some g).
+          { unfold lookup_action. change (p_actions P') with (gt_actions tbl). apply lookupN_unique; [exact Hu'|].
+            unfold gt_actions. apply in_map_iff. exists (nm i k, (i, args), g). split; [reflexivity | exact Ht]. }
+          rewrite ELg, (ground_step s a args g HG Hv Htt Eg), ES. exact R1.
+        * rewrite (gt_back_unique tbl (nm i k) (i, args) g Hu' Ht). fold (gt_map_back tbl pi'). rewrite R2. reflexivity.
+      + exfalso. unfold g_action in Eg.
+        destruct (add_effs_ok [] [] (g_effects smp (zip_params (a_params a) args) (a_effs a))) eqn:Ec.
+        * destruct (g_pre smp (zip_params (a_params a) args) (a_pre a)) eqn:Ep; [discriminate|].
+          rewrite (ground_pre_none s a args HG Ep) in ES. discriminate.
+        * rewrite (Hconf s i a args HG Ha Htu Ec) in ES. discriminate.
+  Qed.
+
+  (* completeness: every valid plan of the original problem whose steps use enumerated parameter tuples is the image
+     of a valid plan of the ground problem (same length, same states) *)
+  Theorem ground_complete s0 pi : G s0 -> plan_in_tuples tuples pi ->
+    valid_plan false P s0 pi = true ->
+    exists pi', valid_plan false P' s0 pi' = true /\ gt_map_back tbl pi' = pi.
+  Proof.
+    intros HG Hin. unfold valid_plan.
+    destruct (run P (spec_step false P) s0 pi) as [t|] eqn:ER; [|discriminate]. intros Hgl.
+    destruct (ground_run_complete pi s0 t HG Hin ER) as [pi' [R1 R2]].
+    exists pi'. rewrite R1. split; [exact Hgl | exact R2].
   Qed.
 End GroundProofs.
